@@ -99,6 +99,19 @@ impl Monitor for C14 {
                 }
             }
         }
+        // a preset update of a tier stores exactly the requested constants (pools created from the tier copy them)
+        if name == "set_preset_adaptive_fee_constants" && obs.ok() && obs.ix.data.len() >= 8 + 2 + 2 + 2 + 4 + 4 + 2 + 2 {
+            let mut r = codec::Rd::new(&obs.ix.data, 8);
+            let want = (r.u16(), r.u16(), r.u16(), r.u32(), r.u32(), r.u16(), r.u16());
+            acc.count("preset_updates_checked");
+            if let Some(t) = w.bank.data(&obs.ix.key("adaptive_fee_tier")).and_then(codec::AdaptiveFeeTier::decode) {
+                let c = &t.constants;
+                let got = (c.filter_period, c.decay_period, c.reduction_factor, c.adaptive_fee_control_factor, c.max_volatility_accumulator, c.tick_group_size, c.major_swap_threshold_ticks);
+                if got != want {
+                    acc.violation(format!("c14:preset_update:{name}"), format!("requested (filter, decay, reduction, control, max accumulator, group size, major threshold) = {want:?}, the tier stores {got:?}"), json!({"instruction": ix_brief(&obs.ix)}));
+                }
+            }
+        }
         if !name.contains("swap") {
             return;
         }
